@@ -238,6 +238,7 @@ def _opaque_method_call(name):
             return Opaque('object', name, t)
         if name in ('append', 'extend', 'update'):
             recv.taint = recv.taint | t
+            I.path.event('list.' + name, id(recv), args[1] if len(args) > 1 else None)
             return None
         if name in ('keys', 'values', 'items'):
             return Opaque('list', name, t)
@@ -366,6 +367,9 @@ def _check_frame(I, env, snap, allowed, qn, k):
                         % (o.cls.__name__, f))
             return
         for f in o.fields:
+            if f not in fields and o.meta.get('db') and \
+                    o.meta.get('initial_columns', {}).get(f) is o.fields[f]:
+                continue      # a column value materialised by a read, not a write
             if f not in fields and (oid, f) not in allowed_pairs:
                 I.path.fail("%s/loop.%d.frame" % (qn, k), "frame",
                             "loop body adds field %s.%s" % (o.cls.__name__, f))
